@@ -519,6 +519,8 @@ func writeEvidence(pc *propCfg, tier string, seed uint64, tc tierCfg, s *scratch
 		"base_seeds":            tc.Seeds,
 		"processes":             tc.Procs,
 		"runs_per_hour":         runsPerHour,
+		"seeds_per_hour":        runsPerHour, // every run has its own seed: Mix(base seed, run index)
+		"seed_derivation":       "run i of base seed s uses tape seed splitmix(s ^ (i+1)*0xd6e8feb86659fd93); base seeds = VERIF_SEED + k*1000003",
 		"simulated_seconds":     m.SimSeconds,
 		"faults_fired":          m.Faults,
 		"reach_probes":          m.Probes,
